@@ -77,7 +77,9 @@ MuxServersLeak(doc, req, obs) ==
    /\ HasOverride(doc) /\ MuxAsPinned(doc, req, obs)
    /\ Gist(MuxObs(doc, req, FALSE, TRUE)) # Gist(CurMuxObs(doc, req))
 
-(* F-C09-9: gorillamux makeServers replaces a port variable by its default and installs a *)
+(* F-C09-9 (FIXED in /repo: 55b24e0; CurMuxObs now has portClobbers off, so the predicate  *)
+(* below can no longer hold -- a clobbered path parameter is reported as a violation):      *)
+(* gorillamux makeServers replaces a port variable by its default and installs a *)
 (* varsUpdater that writes name -> default into the map of path parameters AFTER the      *)
 (* match: a variable of the matched path template that has the port variable's name is    *)
 (* overwritten, so the returned parameters no longer reproduce the request path.  The     *)
@@ -121,7 +123,8 @@ LegacyDecoded(doc, req, obs) ==
    /\ Len(doc.servers) = 0 /\ \E i \in 1..Len(req.u.path) : IsEnc(req.u.path[i])
    /\ LegacyUrlView(doc, req, obs)
 
-(* F-C09-11: the legacy router matches Request.URL only.  A request in server form (the    *)
+(* F-C09-11 (FIXED in /repo: 56bff20; CurLegacyObs now has seesHost on, so the predicate   *)
+(* below can no longer hold): the legacy router matches Request.URL only.  A request in server form (the    *)
 (* form every handler of a net/http server receives: path in URL, host in Request.Host,    *)
 (* https as Request.TLS) is matched as the relative URL of its path, so under absolute      *)
 (* servers it is never found.  The observation is a route error, it is what the model of   *)
